@@ -89,6 +89,15 @@ def case_strategy(draw: Any) -> Dict[str, Any]:
         # frames of consecutive operations may share one write (and one read on the server)
         if ops[-1]["op"] not in ("sleep", "settle") and draw(st.integers(0, 3)) == 0:
             ops[-1]["join"] = True
+    if draw(st.integers(0, 3)) == 0:
+        # a last word once everything has settled: the connection window is opened wide, then a
+        # stalled stream gets credit and a PRIORITY frame in one write - and nothing after it
+        s_ = draw(st.integers(0, n - 1))
+        ops += [{"op": "settle"}, {"op": "wu_conn", "n": 1000000}, {"op": "settle"},
+                {"op": "wu_stream", "s": s_, "n": draw(st.sampled_from([65535, 200000])),
+                 "join": True},
+                {"op": "prio", "s": s_, "dep": draw(st.integers(0, s_)),
+                 "weight": draw(st.integers(1, 256)), "excl": draw(st.booleans())}]
     case = {
         "sched": draw(st.integers(0, 999)),
         "init_win": draw(st.sampled_from([None, None, 0, 1, 1000, 20000, 1 << 20])),
